@@ -201,11 +201,21 @@ class TLSServerProtocol(asyncio.Protocol):
         # Extract client certificate and attach to transport wrapper
         peer_cert = get_peer_certificate_from_connection(self.tls_conn)
         if peer_cert:
-            inner_transport.peer_certificate = x509_to_cryptography(peer_cert)
-            logger.debug(
-                "client_certificate_received",
-                client_ip=self._peer_name[0] if self._peer_name else "unknown",
-            )
+            try:
+                inner_transport.peer_certificate = x509_to_cryptography(peer_cert)
+                logger.debug(
+                    "client_certificate_received",
+                    client_ip=self._peer_name[0] if self._peer_name else "unknown",
+                )
+            except Exception as e:
+                # OpenSSL accepted a certificate that cannot be parsed: treat the client
+                # as having presented none (certificate rules then refuse it) instead of
+                # letting the exception escape the data_received() callback
+                logger.warning(
+                    "client_certificate_unreadable",
+                    client_ip=self._peer_name[0] if self._peer_name else "unknown",
+                    error=str(e),
+                )
 
         # Notify inner protocol of connection
         self.inner_protocol.connection_made(inner_transport)
